@@ -12,6 +12,51 @@ SPEC = {
 }
 
 
+def top_of_range(rng, reps):
+    ops = []
+
+    def rec_header(buf, h, rtype, rdlen):
+        buf[h] = 0                                   # root owner name
+        buf[h + 1:h + 3] = rtype.to_bytes(2, "big")
+        buf[h + 3:h + 5] = (1).to_bytes(2, "big")
+        buf[h + 5:h + 9] = (120).to_bytes(4, "big")
+        buf[h + 9:h + 11] = rdlen.to_bytes(2, "big")
+
+    for _ in range(reps):
+        for kind in ("label", "aaaa", "nsec", "txt"):
+            n = {"label": rng.choice([63, 50, 20]), "aaaa": 16, "nsec": rng.choice([255, 200, 64]), "txt": rng.choice([255, 128, 40])}[kind]
+            s = 65536 - n + rng.choice([0, 0, 1, n // 2])          # where the item's bytes start: s + n >= 65536
+            lead = {"label": 1, "aaaa": 11, "nsec": 14, "txt": 12}[kind]
+            L = min(65535, s + rng.choice([0, 1, n // 3]))           # the packet ends inside the item
+            fill = rng.choice([0x00, 0x41, 0xaa])
+            buf = bytearray([fill]) * L
+            h = s - lead
+            if kind == "label":
+                buf[h] = n
+            elif kind == "aaaa":
+                rec_header(buf, h, 28, 16)
+            elif kind == "nsec":
+                rec_header(buf, h, 47, n + 3)
+                buf[h + 11] = 0                        # next domain name: root
+                buf[h + 12] = 0                        # window block 0
+                buf[h + 13] = n                        # bitmap length
+            else:
+                rec_header(buf, h, 16, n + 1)
+                buf[h + 11] = n                        # one character string
+            hx = bytes(buf).hex()
+            if kind == "label":
+                ops.append("PNAME %s %d" % (hx, h))
+            else:
+                ops.append("PREC %s %d" % (hx, h))
+                # the same record reached through fromPacket: one record of an unsupported type whose rdata fills the gap
+                gap = h - 12 - 11
+                pkt = bytearray(buf)
+                pkt[0:12] = bytes([0, 0, 0x84, 0, 0, 0, 0, 2, 0, 0, 0, 0])
+                rec_header(pkt, 12, 99, gap)
+                ops.append("DEC " + bytes(pkt).hex())
+    return ops
+
+
 def explore(ctx, replay=None, search_boost=False):
     rng = ctx.rng
     ops = []
@@ -48,6 +93,9 @@ def explore(ctx, replay=None, search_boost=False):
             d = bytes(rng.choice([0, 1, 0xc0, 0xc0, 12, rng.randrange(256)]) for _ in range(n))
             ops.append("DEC " + d.hex())
             ops.append("PNAME %s %d" % (d.hex(), rng.randrange(n)))
+        # (iv) the top of the 16-bit offset range: a length-prefixed item (name label, AAAA address, NSEC bitmap, TXT string)
+        #      that starts so close to 65536 that offset + length wraps in 16 bits, in a packet that ends before the item does
+        ops += top_of_range(rng, 2 if quick else 12)
     scripts = [Script("s%d" % i, "codec", ops[i:i + 60]) for i in range(0, len(ops), 60)]
     model, impl, faults = cc.run_both(ctx, scripts)
     violations = []
